@@ -140,6 +140,19 @@ static Verdict run(const Json::Value& sc) {
       }
     }
   }
+  // main-loop order: every prerun of a tick happens before the first run()
+  {
+    std::vector<long> lastPrerun(nticks, -1), firstRun(nticks, -1);
+    long idx = 0;
+    for (auto& e : R.trace) {
+      idx++;
+      if (e.k != "plugin" || e.tick < 0 || e.tick >= nticks) continue;
+      if (e.s == "prerun") lastPrerun[e.tick] = idx;
+      if (e.s == "run" && firstRun[e.tick] < 0) firstRun[e.tick] = idx;
+    }
+    for (int t = 0; t < nticks; t++)
+      if (firstRun[t] >= 0 && lastPrerun[t] > firstRun[t]) v.fail("a plugin ran before every prerun of tick " + std::to_string(t) + " had been executed");
+  }
   std::set<std::string> allIds;
   for (auto& s : specs) {
     for (auto& g : s.groups)
